@@ -7,6 +7,7 @@ import (
 	"encoding/json"
 	"reflect"
 	"sort"
+	"strings"
 	"sync"
 
 	"github.com/modelcontextprotocol/go-sdk/mcp"
@@ -89,6 +90,15 @@ type outScore struct {
 	Label string `json:"label,omitempty"`
 }
 
+// inBasicOpenSchema describes inBasic but leaves additionalProperties open, so that keys the struct does
+// not declare (for instance a declared name in another letter case) are valid input.
+const inBasicOpenSchema = `{"type":"object","properties":{` +
+	`"name":{"type":"string","maxLength":8},` +
+	`"count":{"type":"integer","minimum":0,"maximum":10},` +
+	`"flag":{"type":"boolean"},` +
+	`"ratio":{"type":"number","minimum":0}},` +
+	`"required":["name"]}`
+
 const inDfltSchema = `{"type":"object","properties":{` +
 	`"name":{"type":"string","minLength":1,"maxLength":6},` +
 	`"count":{"type":"integer","minimum":0,"maximum":9,"default":3},` +
@@ -164,12 +174,66 @@ func mk[In, Out any](name string, inSchema, outSchema any) goTool {
 		},
 		expIn: func(args []byte) ([]byte, error) {
 			var in In
-			if err := json.Unmarshal(args, &in); err != nil {
+			// Members are matched by their exact names (the SDK documents case-sensitive decoding of
+			// tool input): anything else is an additional property the Go value does not carry.
+			if err := json.Unmarshal(exactKeys(args, reflect.TypeFor[In]()), &in); err != nil {
 				return nil, err
 			}
 			return json.Marshal(in)
 		},
 	}
+}
+
+// exactKeys drops, at every struct level of t, the object members whose names are not exactly the JSON
+// name of a field, so that encoding/json's case-insensitive matching cannot fold them onto a field.
+func exactKeys(raw []byte, t reflect.Type) []byte {
+	for t.Kind() == reflect.Pointer {
+		t = t.Elem()
+	}
+	switch t.Kind() {
+	case reflect.Struct:
+		var m map[string]json.RawMessage
+		if json.Unmarshal(raw, &m) != nil || m == nil {
+			return raw
+		}
+		out := map[string]json.RawMessage{}
+		for i := 0; i < t.NumField(); i++ {
+			f := t.Field(i)
+			name := strings.Split(f.Tag.Get("json"), ",")[0]
+			if name == "-" {
+				continue
+			}
+			if name == "" {
+				name = f.Name
+			}
+			if v, ok := m[name]; ok {
+				out[name] = exactKeys(v, f.Type)
+			}
+		}
+		b, _ := json.Marshal(out)
+		return b
+	case reflect.Map:
+		var m map[string]json.RawMessage
+		if json.Unmarshal(raw, &m) != nil || m == nil {
+			return raw
+		}
+		for k, v := range m {
+			m[k] = exactKeys(v, t.Elem())
+		}
+		b, _ := json.Marshal(m)
+		return b
+	case reflect.Slice, reflect.Array:
+		var a []json.RawMessage
+		if json.Unmarshal(raw, &a) != nil || a == nil {
+			return raw
+		}
+		for i, v := range a {
+			a[i] = exactKeys(v, t.Elem())
+		}
+		b, _ := json.Marshal(a)
+		return b
+	}
+	return raw
 }
 
 var goTools = map[string]goTool{}
@@ -191,12 +255,13 @@ func init() {
 	addGo(mk[inDflt, outScore]("dflt", json.RawMessage(inDfltSchema), json.RawMessage(outScoreSchema)))
 	addGo(mk[*inBasic, float64]("ptrin", nil, nil))
 	addGo(mk[inPtr, *inner]("ptrout2", nil, nil))
+	addGo(mk[inBasic, outBasic]("openbasic", json.RawMessage(inBasicOpenSchema), nil))
 	for n := range goTools {
 		goToolNames = append(goToolNames, n)
 	}
 	sort.Strings(goToolNames)
 	// The pairs whose outputs can violate their schema get more weight.
-	goToolWeighted = append(append([]string{}, goToolNames...), "dflt", "dflt", "anyfield", "ptrs", "ptrout2")
+	goToolWeighted = append(append([]string{}, goToolNames...), "dflt", "dflt", "anyfield", "ptrs", "ptrout2", "openbasic", "openbasic")
 }
 
 type pubSchemas struct {
